@@ -75,7 +75,15 @@ def in_ctx(ctx, prim):
             'not': '! ' + prim, 'mid': '-true ' + prim + ' -o -false', 'list': '-false , ' + prim + ' -true',
             'gparen': '(' + prim + ')', 'long': '-true ' * 60 + prim + ' -o -false', 'tab': '-true\t' + prim + '\n',
             'deep': '( ' * 20 + prim + ' )' * 20, 'aftertype': '-type f ' + prim, 'beforetype': prim + ' -type d',
-            'afteruid': '-uid 0 ' + prim}[ctx]
+            'afteruid': '-uid 0 ' + prim,
+            'permand': '-perm /111 ' + prim, 'permor': '-perm -400 -o ' + prim, 'permor2': prim + ' -o -perm -040',
+            'permand2': prim + ' -perm /002', 'permand3': '-perm -200 ' + prim, 'permor3': '-perm /020 -o ' + prim,
+            'permlist': '-perm 644 , ' + prim, 'permnot': '! -perm -100 ' + prim,
+            # the primary as the LAST member of a chain of equality tests with the same keyword
+            'orchain': ' -o '.join('%s %d' % (prim.split(' ')[0], k) for k in (1, 2, 3)) + ' -o ' + prim,
+            'orchain5': ' -o '.join('%s %d' % (prim.split(' ')[0], k) for k in (7, 1, 2, 3, 4)) + ' -o ' + prim,
+            'andchain': ' '.join('%s %d' % (prim.split(' ')[0], k) for k in (1, 2, 3)) + ' ' + prim,
+            'orchainmid': '%s 1 -o %s 2 -o ' % (prim.split(' ')[0], prim.split(' ')[0]) + prim + ' -o %s 3 -o %s 4' % (prim.split(' ')[0], prim.split(' ')[0])}[ctx]
 
 
 def prim_request(op, kw, args, ctx, extra=''):
@@ -251,6 +259,9 @@ def gen_numeric(tier, rnd):
                 for u in units:
                     ctx = rnd.choice(['alone', 'after', 'paren'])
                     lines.append(prim_request('C', kw, [sp + u], ctx, ' ' + hx('/dev/x')))
+                    if kind in ('cmp32', 'cmp64') and sp == str(v) and kw not in ('-threads',):
+                        for ctx, nums in [('orchain', [1, 2, 3, v]), ('orchain5', [7, 1, 2, 3, 4, v]), ('andchain', [1, 2, 3, v]), ('orchainmid', [1, 2, v, 3, 4])]:
+                            lines.append(prim_request('C', kw, [sp], ctx, ' ' + hx('/dev/x')) + ' #nums=' + ','.join(str(x) for x in nums))
     # the thread count with other options around it (leading, misplaced, in parentheses)
     for v in [0, 1, 8, 2 ** 31, U32 - 1]:
         for text in ['-threads %d -name x -depth', '-depth -threads %d -name x', '-threads %d ( -name x -o -depth )', '-name x -threads %d -depth',
@@ -266,6 +277,18 @@ def gen_numeric(tier, rnd):
             for text in ['-threads %d -name x %s', '-name x -threads %d %s', '-threads %d %s', '-depth -threads %d -name x -print %s',
                          '( -threads %d -name x ) %s', '-threads 3 -name x -threads %d %s']:
                 lines.append('C %s %s #threads=%d' % (hx(text % (v, last)), hx('/dev/x'), v))
+    # CHAINS of sign-less (and signed) tests on one numeric attribute (a generator that folds a chain into one
+    # membership/range test must keep every constant exact)
+    big = {'-links': [1, 2, 3, 4294967297, 4294967296, 8589934597, 7, 18446744073709551615], '-uid': [0, 1, 2, 4294967295, 65536, 5],
+           '-gid': [0, 4294967295, 3, 4], '-inum': [1, 4294967295, 2, 9], '-stripe-count': [0, 1, 2, 4294967295], '-mirror-count': [1, 2, 3, 4]}
+    for kw, vals in big.items():
+        for k in range(2, 7):
+            for op in [' -o ', ' -a ', ' , ', ' ']:
+                for sign in ['', '+', '-']:
+                    vs = [vals[(i * 3 + k) % len(vals)] for i in range(k)]
+                    text = op.join('%s %s%d' % (kw, sign, v) for v in vs)
+                    lines.append('C %s %s' % (hx(text), hx('/dev/x')))
+                    lines.append('C %s %s' % (hx('( ' + text + ' ) -print'), hx('/dev/x')))
     # every letter (and some punctuation) as a would-be unit suffix, with small and huge counts:
     # a suffix is either a documented unit (exact product) or the argument is rejected
     import string
@@ -327,7 +350,9 @@ def gen_perm(tier, rnd):
                         lines.append(prim_request('C', '-perm', [pre + w + op + pm], 'alone', ' ' + hx('/')))
                         lines.append(prim_request('C', '-perm', [pre + 'u=rwx,' + w + op + pm + ',o+r'], 'alone', ' ' + hx('/')))
     # longer octal spellings: leading zeros keep the value, anything beyond 07777 is not a mode and must be rejected
-    longs = ['00644', '0007777', '000000', '10000', '17777', '20644', '100755', '77777', '777777', '7777777', '40000', '07778', '12345670', '37777777777', '40000000000']
+    longs = ['00644', '0007777', '000000', '10000', '17777', '20644', '100755', '77777', '777777', '7777777', '40000', '07778', '12345670', '37777777777', '40000000000',
+             # digit runs beyond every machine word (2^32, 2^64, 2^128): rejected, in both builds, whatever the low digits say
+             '2000000000000000000644', '1777777777777777777777', '2000000000000000000000', '7' * 22, '7' * 23, '1' + '0' * 22 + '644', '4' + '0' * 42 + '755', '0' * 40 + '644', '7' * 64]
     for _ in range(200 if tier == 'quick' else 5000):
         longs.append(''.join(rnd.choice('01234567') for _ in range(rnd.randint(5, 11))))
     for w in longs:
@@ -338,7 +363,8 @@ def gen_perm(tier, rnd):
     modes = ['644', '0644', '4755', '2750', '1777', '7777', '000', '0', '111', 'u=rw,go=r', 'a+x', 'u+s', 'g+s', 'o+t', 'ug=rwx']
     for m in modes:
         for pre in ['', '-', '/']:
-            for ctx in ['aftertype', 'beforetype', 'afteruid', 'not', 'paren', 'gparen', 'after', 'mid', 'list']:
+            for ctx in ['aftertype', 'beforetype', 'afteruid', 'not', 'paren', 'gparen', 'after', 'mid', 'list',
+                        'permand', 'permor', 'permor2', 'permand2', 'permand3', 'permor3', 'permlist', 'permnot']:
                 lines.append(prim_request('C', '-perm', [pre + m], ctx, ' ' + hx('/')))
     return lines, {'rule': '15 modes (incl. setuid/setgid/sticky) x 3 prefixes next to -type/-uid, under !, in parentheses and in and/or/list positions; all 4096 octal values in 3- and 4-digit spelling, all 315 single clauses, %s two-clause lists, sampled 3- and 4-clause lists, each under the three prefixes; parse + compile; non-trivial = every request'
                    % ('5000 sampled' if tier == 'quick' else 'all 99225'), 'exhaustive': tier != 'quick', 'streams': {'perm': len(lines)}}
@@ -375,6 +401,10 @@ def gen_format(tier, rnd):
     for a in ESCAPES + DIRECTIVES:
         for b in ESCAPES + DIRECTIVES:
             lines.append(prim_request('P', '-printf', ["'" + a + b + "'"], 'alone'))
+    # names of every length around the thresholds a length limit could sit at
+    for n in [1, 8, 31, 32, 63, 64, 127, 128, 254, 255, 256, 257, 300, 511, 512, 1000, 4096]:
+        for name in ['a' * n, ('userABC' * n)[:n]]:
+            lines.append(prim_request('P', '-printf', ["'%p %{xattr:" + name + "}\\n'"], 'alone'))
     for run in octal_runs():
         esc = ''.join('\\%03o' % v for v in run)
         for pre, post in [('', ''), ('caf', ' %p\\n'), ('%p', 'x')]:
@@ -427,7 +457,9 @@ for _k in ('time', 'cmp32', 'cmp64', 'size'):
     BADWORDS[_k] = BADWORDS[_k] + ['+big', '-x', '--3', '-', '+', '+-1', '-+2', '++5', '-print', '-o', '+k', '-@', '+é', "-'q'"]
 for _k in ('time', 'cmp32', 'cmp64', 'u32', 'size', 'types', 'perm'):
     BADWORDS[_k] = BADWORDS[_k] + ['""', "''", '""x"', "''y'", '"' * 3, "'" * 3, '"' * 4]
-VALID_PRIMS = ['-true', '-name a', '-uid 5', '-type f', '-size +1k', '-print', '-empty', '-name "a b"', "-name 'q r'", '-fprint "out"', "-pool 'p'"]
+VALID_PRIMS = ['-true', '-name a', '-uid 5', '-type f', '-size +1k', '-print', '-empty', '-name "a b"', "-name 'q r'", '-fprint "out"', "-pool 'p'",
+               # multi-byte text BEFORE the error position (byte offsets and character counts differ from here on)
+               '-name café', '-name 日本', "-path 'søren ærø'", '-fprint /tmp/日本.txt', '-pool 😀']
 
 
 def word_of(w):
@@ -749,6 +781,19 @@ def gen_layout(tier, rnd):
                         lines.append('P %s #grp=ws%d' % (hx(head + kw + ' ' + sp + tail), gi))
         for text in [ws, ws + '-true', '-true' + ws, '-true ' + ws, ws + ' -true', '-name x ' + ws + ' -print']:
             lines.append('P %s' % hx(text))
+    # a bracket opened in one bare word and closed in a LATER word (a reader that keeps a bracketed class in one
+    # piece must not reach across words): bare and quoted spellings agree
+    gi = 0
+    for (o, c) in [('[', ']'), ('{', '}'), ('<', '>'), ('(x', 'y)'), ('"', '"'), ('\\(', '\\)')]:
+        if o == '"':
+            continue
+        for (a, b) in [(o + 'a', 'b' + c), ('x' + o, c + 'y'), (o, c), ('p' + o + 'q', 'r' + c + 's')]:
+            for text in ['-name %s -o -name %s', '( -name %s -size +3k ) -a -path %s', '-iname %s -print , -name %s', '-name %s -name q -name %s']:
+                if '(' in a or ')' in b:
+                    continue
+                gi += 1
+                for q in ['%s', "'%s'", '"%s"']:
+                    lines.append('P %s #grp=br%d' % (hx(text % (q % a, q % b)), gi))
     for i, s in enumerate(['', ' ', '\t', '\n', '\r', ' \t\r\n ', '   ']):
         lines.append('P %s #grp=blank' % hx('-true' if i == 0 else s))
         lines.append('P %s #grp=blank' % hx(s))
